@@ -97,6 +97,11 @@ func genOp(t *rapid.T, l layoutSpec, kinds []string, n *int) opSpec {
 // buildCall creates the hrpc call for an op through the public constructors.
 func buildCall(ctx context.Context, table string, op opSpec, opts ...func(hrpc.Call) error) (hrpc.Call, error) {
 	tb := []byte(table)
+	if op.Key == nil {
+		// a nil row is not a request (the protobuf row field is required); the empty row
+		// is the smallest key
+		op.Key = evid.B{}
+	}
 	switch op.Kind {
 	case "get":
 		return hrpc.NewGet(ctx, tb, op.Key, append([]func(hrpc.Call) error{hrpc.Families(markerFam(op.Marker))}, opts...)...)
